@@ -808,3 +808,81 @@ def provenance (g, node, name, _depth=0, _seen=None):
     if kind == 'assign' and isinstance(v, tuple): kind = 'elt'
     out.append((d, kind, v))
   return out
+
+# ---------------------------------------------------------------------------
+# lists collected from a scan: append-in-loop and comprehension forms alike
+
+class Collected(object):
+  """a local list filled from one scan: name, element expr, iterable expr, loop variable,
+  facts [(text of atomic test, polarity)] under which an element is taken, site (ast), form"""
+  def __init__ (self, name, elt, it, var, conds, site, form, node=None):
+    self.name = name; self.elt = elt; self.it = it; self.var = var; self.conds = conds; self.site = site; self.form = form; self.node = node
+  def cond_strs (self):
+    return ["%s:%s" % (norm(t), 'truthy' if p else 'falsy') for t, p in self.conds]
+
+def _split_test (t, pol=True):
+  """atomic tests of a condition that all hold when the condition has polarity pol (conjunctive part only)"""
+  if isinstance(t, ast.UnaryOp) and isinstance(t.op, ast.Not): return _split_test(t.operand, not pol)
+  if isinstance(t, ast.BoolOp):
+    if (isinstance(t.op, ast.And) and pol) or (isinstance(t.op, ast.Or) and not pol):
+      out = []
+      for v in t.values: out += _split_test(v, pol)
+      return out
+    return []          # a disjunction gives no atomic fact
+  return [(t, pol)]
+
+def collected_lists (func):
+  g = cfg_of(func); out = []
+  fn = func.node
+  for st in walk_no_nested(fn):
+    if isinstance(st, ast.Assign) and len(st.targets) == 1 and isinstance(st.targets[0], ast.Name) and isinstance(st.value, ast.ListComp) and len(st.value.generators) == 1:
+      c0 = st.value.generators[0]
+      conds = []
+      for i in c0.ifs: conds += _split_test(i, True)
+      out.append(Collected(st.targets[0].id, st.value.elt, c0.iter, c0.target, conds, st, 'comprehension', enclosing_stmt_node(g, st)))
+  for c in calls_in(fn):
+    if call_name(c) == 'append' and isinstance(c.func.value, ast.Name) and len(c.args) == 1:
+      n = enclosing_stmt_node(g, c)
+      if n is None: continue
+      loop = None
+      for (ls, h, a) in g.loop_nodes:
+        if isinstance(ls, ast.For) and n in g.loop_body_nodes(h): loop = (ls, h)
+      if loop is None: continue
+      conds = []
+      for test, pol, b in g.guards(n):
+        if isinstance(test, (ast.For, ast.AsyncFor)): continue
+        if b in g.loop_body_nodes(loop[1]) or True:
+          # only guards inside the loop select elements
+          if g.dominates(loop[1], b): conds.append((test, pol))
+      out.append(Collected(c.func.value.id, c.args[0], loop[0].iter, loop[0].target, conds, c, 'loop', n))
+  return out
+
+# ---------------------------------------------------------------------------
+# argument values at a call site, decided by constant propagation along the paths that reach it
+
+def effective_arg (call, callee, name, pos=None):
+  """AST of the argument bound to parameter `name` of `callee` (Func) at `call`: explicit keyword / positional,
+  else the callee's default expression, else None"""
+  v = kwarg(call, name, pos)
+  if v is not None or callee is None: return v
+  a = callee.node.args
+  ps = a.posonlyargs + a.args
+  d = dict(zip([x.arg for x in reversed(ps)], reversed(a.defaults)))
+  for x, dv in zip(a.kwonlyargs, a.kw_defaults):
+    if dv is not None: d[x.arg] = dv
+  return d.get(name)
+
+def values_at (repo, module, g, env, node, expr, cls=None, limit=60):
+  """set of values `expr` can take when control reaches CFG `node` under `env` (constant propagation along every
+  feasible path from the entry); an unknown value is reported as the string '?'"""
+  out = set()
+  if node is g.entry: paths = [((g.entry,), env)]
+  else: paths = paths_under(repo, module, g, env, g.entry, [node], cls, limit=limit)
+  for p, e in paths:
+    try: v = eval_env2(repo, module, expr, e, cls)
+    except Exception: v = '?'
+    if v is OPAQUE: v = '?'
+    try: hash(v)
+    except TypeError: v = repr(v)
+    out.add(v)
+  return out
